@@ -323,6 +323,11 @@ def c17(rng, qk):
     for t in range(rng.randint(1, 3)):
         s.start(f"t{t}")
     gen = 0
+
+    def wpad():
+        # in the targeted windows half of the statements on an unbounded queue do not fit into the producer's (drained) buffer:
+        # they are committed into a NEW buffer linked behind the one the backend is reading - "empty" must look at that link
+        return min(cap, mx - qsys.HDR - 8) if (not bounded and rng.random() < 0.5) else rng.randint(0, 12)
     for _ in range(rng.randint(15, 40)):
         r = rng.random()
         if r < 0.45 and live:
@@ -374,7 +379,7 @@ def c17(rng, qk):
             del live[a]
             s.op("B pollg")
             s.op(f"B until:LOGGER_ITER:{b}")               # logger a has been checked (and freed); parked at the iteration for b
-            s.log(rng.choice(sorted(s.alive)), b, pad=rng.randint(0, 12))
+            s.log(rng.choice(sorted(s.alive)), b, pad=wpad())
             s.op(f"remove {b}")
             del live[b]
             s.op("B until:-")
@@ -390,7 +395,7 @@ def c17(rng, qk):
             s.op("B pollf")
             for _ in range(rng.randint(0, 4)):
                 s.op("B go")
-            s.log(rng.choice(sorted(s.alive)), n, pad=rng.randint(0, 12))
+            s.log(rng.choice(sorted(s.alive)), n, pad=wpad())
             s.op(f"remove {n}")
             del live[n]
             s.op("B go")
